@@ -2,21 +2,7 @@
 // TRUSTED prelude (hand written): external type specifications, oracles and assumed specifications
 // for the std / chrono functions that the copied flexi_logger bodies call. Nothing in here is proved.
 // ================================================================================================
-#[verifier::external_type_specification]
-#[verifier::external_body]
-pub struct ExPath(std::path::Path);
-
-#[verifier::external_type_specification]
-#[verifier::external_body]
-pub struct ExPathBuf(std::path::PathBuf);
-
-#[verifier::external_type_specification]
-#[verifier::external_body]
-pub struct ExIoError(std::io::Error);
-
-#[verifier::external_type_specification]
-pub struct ExIoErrorKind(std::io::ErrorKind);
-
+//@ include prelude/types.rs
 #[verifier::external_type_specification]
 #[verifier::external_body]
 #[verifier::reject_recursive_types(Tz)]
@@ -197,16 +183,7 @@ impl VWriter {
     { unimplemented!() }
 }
 
-// ---- combinators on Option / Result that vstd does not specify (closure contracts flow through) ------
-pub assume_specification<T, F: FnOnce() -> Option<T>>[ Option::<T>::or_else ](o: Option<T>, f: F) -> (r: Option<T>)
-    requires o is None ==> f.requires(()),
-    ensures o is Some ==> r == o, o is None ==> f.ensures((), r);
-pub assume_specification<T, E, F2, O: FnOnce(E) -> Result<T, F2>>[ Result::<T, E>::or_else ](res: Result<T, E>, op: O) -> (r: Result<T, F2>)
-    requires res is Err ==> op.requires((res->Err_0,)),
-    ensures res is Ok ==> r is Ok && r->Ok_0 == res->Ok_0, res is Err ==> op.ensures((res->Err_0,), r);
-pub assume_specification<T, E, F: FnOnce(E) -> T>[ Result::<T, E>::unwrap_or_else ](res: Result<T, E>, op: F) -> (r: T)
-    requires res is Err ==> op.requires((res->Err_0,)),
-    ensures res is Ok ==> r == res->Ok_0, res is Err ==> op.ensures((res->Err_0,), r);
+//@ include prelude/combinators.rs
 pub assume_specification[ std::time::Duration::from_secs ](secs: u64) -> (r: std::time::Duration);
 
 // ---- equality on std::io::ErrorKind (fieldless enum; `==` / `!=` are the derived comparisons) --------
